@@ -22,6 +22,7 @@ class MemFS(object):
         self.base = dict(self.files)
         self.complete = complete            # callable(fn, label): schedule completion of an aio op
         self.on_effect = None               # callable(k) after the k-th effect was applied
+        self.short_chooser = None           # Chooser: an aio request may complete for fewer bytes than asked (legal for pyaio)
         self.O_RDONLY = _os.O_RDONLY
 
     # ---- effect log
@@ -92,14 +93,23 @@ class MemFS(object):
             import gevent
             gevent.get_hub().loop.run_callback(fn)
 
+    def _short(self, kind, n):
+        """how many of the n requested bytes this request completes for: all (default), half, one"""
+        if self.short_chooser is None or n <= 1:
+            return n
+        c = self.short_chooser.choose(3, 'short-' + kind, 'sched')
+        return [n, max(1, n // 2), 1][c]
+
     def aio_write(self, fd, piece, offset, callback):
         piece = bytes(piece)
 
         def done():
+            nonlocal piece
             path = self.fds.get(fd)
             if path is None or path not in self.files:
                 callback(-1, errno.EBADF)
                 return
+            piece = piece[:self._short('write', len(piece))]
             cur = self.files[path]
             if len(cur) < offset:
                 cur = cur + b'\x00' * (offset - len(cur))
@@ -115,6 +125,7 @@ class MemFS(object):
                 callback(b'', -1, errno.EBADF)
                 return
             buf = self.files[path][offset:offset + size]
+            buf = buf[:self._short('read', len(buf))]
             callback(buf, len(buf), 0)
         self._schedule(done, 'aio_read fd%d@%d' % (fd, offset))
 
